@@ -22,29 +22,29 @@ def run(c):
                                    (CH + "Chain::sync_block_headers", "grin_chain::pipe::process_block_headers"),
                                    (CH + "Chain::txhashset_write", X + "extending"),
                                    ("grin_chain::txhashset::desegmenter::Desegmenter::validate_complete_state", X + "extending"))):
-        c.r1("commit-after-extension-%d" % (i + 1), fn, ext, sink=B + "commit", via=0, desc="%s: batch.commit only after %s succeeded" % (fn.split("::")[-1], ext.split("::")[-1]))
+        c.r1("commit-after-extension-%d" % (i + 1), fn, ext, sink=B + "commit", via=2, desc="%s: batch.commit only after %s succeeded" % (fn.split("::")[-1], ext.split("::")[-1]))
     c.never("setup-head-commit-last", CH + "setup_head", B + "commit", X + "extending", desc="setup_head: no extension runs after the final batch.commit")
     c.never("reset-head-commit-last", CH + "Chain::reset_chain_head", B + "commit", "re:txhashset::txhashset::(extending|header_extending)$",
             desc="reset_chain_head: no extension runs after batch.commit")
     c.r3("backend-sync-only-in-wrappers", "grin_store::pmmr::PMMRBackend::sync", {X + "extending", X + "header_extending"}, floor_sites=4)
-    c.r1("ext-sync-after-child-commit", X + "extending", B + "commit", sink="grin_store::pmmr::PMMRBackend::sync", via=0)
-    c.r1("hext-sync-after-child-commit", X + "header_extending", B + "commit", sink="grin_store::pmmr::PMMRBackend::sync", via=0)
+    c.r1("ext-sync-after-child-commit", X + "extending", B + "commit", sink="grin_store::pmmr::PMMRBackend::sync", via=2)
+    c.r1("hext-sync-after-child-commit", X + "header_extending", B + "commit", sink="grin_store::pmmr::PMMRBackend::sync", via=2)
     # --- temp-file save
     SV = ST + "save_via_temp_file"
-    c.r1("tmp-create-before-write", SV, "re:std::fs::File::create$", sink="re:ops::function::FnMut::call_mut$", via=0)
-    c.r1("tmp-write-before-fsync", SV, "re:ops::function::FnMut::call_mut$", sink="re:std::fs::File::sync_all$", via=0)
-    c.r1("tmp-fsync-before-rename", SV, "re:std::fs::File::sync_all$", sink="re:std::fs::rename$", via=0)
-    c.r1("tmp-rename", SV, "re:std::fs::rename$", via=0)
+    c.r1("tmp-create-before-write", SV, "re:std::fs::File::create$", sink="re:ops::function::FnMut::call_mut$", via=2)
+    c.r1("tmp-write-before-fsync", SV, "re:ops::function::FnMut::call_mut$", sink="re:std::fs::File::sync_all$", via=2)
+    c.r1("tmp-fsync-before-rename", SV, "re:std::fs::File::sync_all$", sink="re:std::fs::rename$", via=2)
+    c.r1("tmp-rename", SV, "re:std::fs::rename$", via=2)
     c.r3("leafset-flush-via-temp", SV, {"grin_store::leaf_set::LeafSet::flush", "grin_store::prune_list::PruneList::flush"}, floor_sites=2)
     # --- append-only file flush
     AF = ST + "types::AppendOnlyFile::flush"
-    c.r1("aof-sizefile-first", AF, AF, sink="re:std::fs::OpenOptions::open$", via=0, extra_cuts=_fixed_size_arms(c, AF),
+    c.r1("aof-sizefile-first", AF, AF, sink="re:std::fs::OpenOptions::open$", via=2, extra_cuts=_fixed_size_arms(c, AF),
          desc="AppendOnlyFile::flush: a variable-size file flushes its size file before touching the data file")
-    c.r1("aof-truncate-before-append", AF, "re:std::fs::File::set_len$", sink="re:std::io::Write::write_all$", via=0,
+    c.r1("aof-truncate-before-append", AF, "re:std::fs::File::set_len$", sink="re:std::io::Write::write_all$", via=2,
          extra_cuts=c.false_edges(AF, r"^Gt\(arg0\.buffer_start_pos_bak, 0\)$"),
          desc="AppendOnlyFile::flush: a rewound file is truncated (set_len) before the buffer is appended")
-    c.r1("aof-write-before-fsync", AF, "re:std::io::Write::write_all$", sink="re:std::fs::File::sync_all$", via=0)
-    c.r1("aof-fsync", AF, "re:std::fs::File::sync_all$", via=0)
+    c.r1("aof-write-before-fsync", AF, "re:std::io::Write::write_all$", sink="re:std::fs::File::sync_all$", via=2)
+    c.r1("aof-fsync", AF, "re:std::fs::File::sync_all$", via=2)
     _assign_after(c, "aof-bak-reset-after-truncate", AF, "buffer_start_pos_bak", "re:std::fs::File::set_len$", c.false_edges(AF, r"^Gt\(arg0\.buffer_start_pos_bak, 0\)$"))
     # --- atomic replace: no delete of the destination before a rename onto it
     n = bad = 0
@@ -71,19 +71,19 @@ def run(c):
         c.record("atomic-replace", "R1", None, "no fs::remove_file(p) precedes fs::rename(_, p) on the same path (%d rename sites)" % n, "hold", [])
     # --- LMDB commit
     LC = ST + "lmdb::Batch::commit"
-    c.r1("lmdb-commit", LC, "re:heed::txn::RwTxn::commit$", via=0)
+    c.r1("lmdb-commit", LC, "re:heed::txn::RwTxn::commit$", via=2)
     c.r3("lmdb-commit-sites", "re:heed::txn::RwTxn::commit$", {LC, ST + "lmdb::Store::new", ST + "lmdb::Store::clear", ST + "lmdb::Store::migrate_to_default_env"}, floor_sites=5)
-    c.r1("chain-commit", B + "commit", LC, via=0)
+    c.r1("chain-commit", B + "commit", LC, via=2)
     # --- start-up recovery loop
     SH = CH + "setup_head"
     bad_arm = c.false_edges(SH, r"^Result::is_ok\(txhashset::extending\(")
     starts = [e[1] for e in bad_arm]
-    c.r1("recovery-rewind-prev", SH, X + "extending", start=starts, sink=B + "save_body_head", via=0,
+    c.r1("recovery-rewind-prev", SH, X + "extending", start=starts, sink=B + "save_body_head", via=2,
          desc="setup_head recovery arm: rewind to the previous header before moving the head back")
-    c.r1("recovery-forget-block", SH, B + "delete_block", start=starts, sink=B + "save_body_head", via=0, called_only=True,
+    c.r1("recovery-forget-block", SH, B + "delete_block", start=starts, sink=B + "save_body_head", via=2, called_only=True,
          desc="setup_head recovery arm: the bad block is deleted before the head moves back")
     c.r2_arg("recovery-prev-header", SH, B + "get_block_header", 1, must=["re:prev_block_h$"], where=r"prev_block_h", floor=1)
-    c.r1("recovery-retries", SH, B + "save_body_head", start=starts, sink="grin_chain::store::ChainStore::pibd_head", via=0,
+    c.r1("recovery-retries", SH, B + "save_body_head", start=starts, sink="grin_chain::store::ChainStore::pibd_head", via=2,
          desc="setup_head recovery arm: after moving the head back the validation is retried (loop back edge)")
     c.r2("head-consistency", X + "PMMRHandle::init_head", ops={"Ne"}, lhs=["call:Hashed::hash", "arg1"], rhs=["re:get_header_hash_by_height$|call:PMMRHandle::get_header_hash_by_height"], dominate=False,
          err=None, desc="PMMRHandle::init_head: a header MMR that disagrees with the stored head is refused")
